@@ -75,7 +75,7 @@ MUTANTS = [
     # ------------------------------------------------------------------ C12 / C13
     m("c12-region-matrix-sign", ["C12"], R, "[np.cos(k * np.pi / 2), -np.sin(k * np.pi / 2)],\n                [np.sin(k * np.pi / 2), np.cos(k * np.pi / 2)],",
       "[np.cos(k * np.pi / 2), np.sin(k * np.pi / 2)],\n                [-np.sin(k * np.pi / 2), np.cos(k * np.pi / 2)],"),
-    m("c12-field-mix-sign", ["C12"], F, "value[..., vdim1] = np.cos(theta) * value1 - np.sin(theta) * value2", "value[..., vdim1] = np.cos(theta) * value1 + np.sin(theta) * value2"),
+    m("c12-field-mix-sign", ["C12"], F, "value[..., vdim1] = cos_theta * value1 - sin_theta * value2", "value[..., vdim1] = cos_theta * value1 + sin_theta * value2"),
     m("c12-field-mix-nocopy", ["C12"], F, "value1 = value[..., vdim1].copy()", "value1 = value[..., vdim1]"),
     m("c12-field-axes-swapped", ["C12"], F, "value = np.rot90(self.array.copy(), k=k, axes=(idx1, idx2))", "value = np.rot90(self.array.copy(), k=k, axes=(idx2, idx1))"),
     m("c12-region-ref-axis", ["C12"], R, "ref_2 = reference_point[idx2]", "ref_2 = reference_point[idx1]"),
@@ -436,4 +436,30 @@ MUTANTS += [
     m("c13-integrate-scales-in-place", ["C13"], F, "tmp_array = self.array / 2", "tmp_array = self.array\n            tmp_array /= 2"),
     m("c13-meshpad-moves-region", ["C13"], M, "pmin = self.region.pmin.copy().astype(float)", "pmin = self.region.pmin"),
     m("c13-orientation-in-place", ["C13"], F, "            out=np.zeros_like(self.array),\n        )\n        return self.__class__(\n            self.mesh,\n            nvdim=self.nvdim,\n            value=orientation_array,", "            out=self.array,\n        )\n        return self.__class__(\n            self.mesh,\n            nvdim=self.nvdim,\n            value=orientation_array,"),
+]
+
+MUTANTS += [
+    m("c12-inexact-coefficients", ["C12"], F, "            cos_theta = round(np.cos(theta))\n            sin_theta = round(np.sin(theta))\n", "            cos_theta = np.cos(theta)\n            sin_theta = np.sin(theta)\n"),
+]
+
+MUTANTS += [
+    # ------------------------------------------------------------------ result dtype must not be inherited
+    m("c06-integrate-inherits-dtype", ["C06"], F, "        return self.__class__(\n            mesh,\n            nvdim=self.nvdim,\n            value=res_array,\n", "        return self.__class__(\n            mesh,\n            nvdim=self.nvdim,\n            dtype=self.dtype,\n            value=res_array,\n"),
+    m("c04-diff-inherits-dtype", ["C04"], F, "            value=out,\n            vdims=self.vdims,\n", "            value=out,\n            dtype=self.dtype,\n            vdims=self.vdims,\n"),
+    m("c15-norm-inherits-dtype", ["C15"], F, "self.mesh, nvdim=1, value=res, unit=self.unit, valid=self.valid", "self.mesh, nvdim=1, value=res, dtype=self.dtype, unit=self.unit, valid=self.valid"),
+    m("c11-fft-inherits-dtype", ["C11"], F, "            value=array,\n            vdims=new_vdims,", "            value=array,\n            dtype=self.dtype,\n            vdims=new_vdims,"),
+    m("c03-operator-inherits-dtype", ["C03"], F, "            nvdim=res_array.shape[-1],\n            value=res_array,\n", "            nvdim=res_array.shape[-1],\n            value=res_array,\n            dtype=self.dtype,\n"),
+]
+
+MUTANTS += [
+    # ------------------------------------------------------------------ corner copies / C05 exactness
+    m("c07-testpoint-int-truncation", ["C07"], M, "                test_point = self.region.pmin.copy().astype(\n                    max(self.region.pmin.dtype, type(range_))\n                )", "                test_point = self.region.pmin.copy()"),
+    m("c07-sel-range-int-truncation", ["C07"], M, "p_1 = self.region.pmin.copy().astype(", "p_1 = self.region.pmin.copy() if True else self.region.pmin.astype("),
+    m("c12-region-rotate-int-corners", ["C12"], R, 'p2 = self.pmax.copy().astype("float")', "p2 = self.pmax.copy()"),
+    m("c05-first-derivative-threshold", ["C05", "C04"], OP, "        if len(array) < 3:\n", "        if len(array) <= 3:\n"),
+]
+
+MUTANTS += [
+    m("c03-mesh-eq-ignores-n", ["C03"], M, "return self.region == other.region and all(self.n == other.n)", "return self.region == other.region and any(self.n == other.n)"),
+    m("c03-region-eq-ignores-pmax", ["C03"], R, "                np.array_equal(self.pmin, other.pmin)\n                and np.array_equal(self.pmax, other.pmax)", "                np.array_equal(self.pmin, other.pmin)\n                and np.array_equal(self.pmin, other.pmin)"),
 ]
